@@ -1,7 +1,7 @@
 """C07 - closing a subscope loses nothing recorded before it and harms no other scope."""
 import vlib
 
-CLAUSES = {"NeverAhead", "NoNegativeDelta", "Conservation", "IdleCycleSilent", "ReacquireFresh", "NoCrash"}
+CLAUSES = {"NeverAhead", "NoNegativeDelta", "Conservation", "IdleCycleSilent", "ReacquireFresh", "NoCrash", "ClosedParentInert"}
 BASE = dict(Script="ScriptC07a", Passers='{"p1"}', NObj=2)
 
 
